@@ -15,7 +15,8 @@ the unrepaired loop (`sendOld`) and map collapse (`collapseLast`) are kept for t
 
 Partial (trusted / sampled, not proved): TCP, the 200 ms ticker and goroutine scheduling (a *tick* is an
 event of the model), `writeLoop` eventually draining `writeCh`; retransmission is proved in the head-of-line
-reading (`every_pending_resent_until_acked_partial`).
+reading (`every_pending_resent_until_acked_partial`). Hypotheses are WINDOWED (`PendingBelow`: fewer than 65 536
+messages pending at a time; `NoStaleIdReuse` only for the order), the former trace-wide `NoWrap` is gone.
 -/
 namespace EgVerif.C15
 open EgVerif.Topic EgVerif.Delivery EgVerif.SessionQueue
@@ -82,156 +83,113 @@ theorem http_accepts_iff (r : HttpReq) :
 example : send (fun _ => true) 1 [("c1", 0), ("c2", 1)] = ["c2"] := by decide
 example : send (fun c => c != "c3") 0 [("c1", 0), ("c3", 1), ("c2", 1)] = ["c1", "c2"] := by decide
 
-/-! ### session queue: QoS0 drop, QoS1 retransmission -/
+/-! ### session queue: QoS0 drop, QoS1 retransmission
+
+The model mirrors the code WITH fix `C15-packet-id-skip-pending` (`getPacketFromMsg` skips ids that are still keys
+of `pending`). `unacked tr` is the observation-based bookkeeping of `Spec/Delivery.lean` (what was written, with
+which id, and not yet acknowledged) on the model's own outputs — the same function the judge folds over the
+implementation's observations. -/
 
 /-- A QoS0 copy is dropped **only** when the client's outbound queue is full; a QoS1 copy is always
 written (and remembered as pending under the id it was sent with). -/
 theorem qos0_drop_only_when_full (s : Sess) (m : Msg) (full : Bool) (h : m.qos = 0) :
     ((publish true full m s).2 = [] ↔ full = true) ∧
-      (full = false → (publish true full m s).2 = [pkt s.nextID m]) := by
+      (full = false → (publish true full m s).2 = [pkt (freeId s.pending s.nextID) m]) := by
   cases full <;> simp [publish, h]
 
 theorem qos1_always_written (s : Sess) (m : Msg) (full : Bool) (h : m.qos = 1) :
-    (publish true full m s).2 = [pkt s.nextID m] ∧
-      alGet s.nextID (publish true full m s).1.pending = some m := by
+    (publish true full m s).2 = [pkt (freeId s.pending s.nextID) m] ∧
+      alGet (freeId s.pending s.nextID) (publish true full m s).1.pending = some m := by
   simp [publish, h, pkt, alGet_alSet]
 
-/-- `NoWrap tr`: fewer than 65 536 packet ids are consumed over the trace (the uint16 counter does not
-lap a still-pending message). -/
-def NoWrap (tr : List Ev) : Prop := consumed 0 tr ≤ idMod
+/-- **Windowed hypothesis** (replaces the former trace-wide `NoWrap`): at every online publish of the trace fewer
+than 65 536 messages are pending. Nothing about how many ids the session has consumed in its life. -/
+def PendingBelow (tr : List Ev) : Prop := PendBound Sess.init tr
+
+/-- needed only for the ORDER of retransmission: no QoS1 message is handed an id that is still a stale entry of
+`pendingQueue` (an id acknowledged earlier, not yet dropped from the queue by a tick, that comes round again
+after 65 536 publishes). -/
+def NoStaleIdReuse (tr : List Ev) : Prop := NoStaleReuse Sess.init tr
+
+/-- **Packet ids of pending messages are pairwise distinct**, and the session's `pending` map is exactly the list
+of unacknowledged QoS1 messages — for every trace with fewer than 65 536 messages pending at a time. -/
+theorem packet_ids_distinct_while_pending (tr : List Ev) (h : PendingBelow tr) :
+    ((unacked tr).map Prod.fst).Nodup ∧ (SessionQueue.run Sess.init tr).pending = unacked tr :=
+  let inv := qi_run tr qi_init h
+  ⟨inv.nd, inv.pend⟩
+
+/-- **The repaired allocation never hands out the id of a still-pending message**: the next online publish after
+`tr` gets an id that no unacknowledged message carries (so nothing is overwritten). -/
+theorem allocated_id_not_pending (tr : List Ev) (h : PendingBelow tr) (full : Bool) (m : Msg)
+    (hb : (SessionQueue.run Sess.init tr).pending.length < idMod) :
+    ∀ p ∈ (publish true full m (SessionQueue.run Sess.init tr)).2, p.id ∉ (unacked tr).map Prod.fst := by
+  have inv := qi_run tr qi_init h
+  have hf := freeId_fresh _ _ inv.lt hb
+  rw [inv.pend] at hf
+  intro p hp
+  by_cases h0 : m.qos = 0
+  · cases full <;> simp [publish, h0] at hp
+    subst hp; simpa [pkt, inv.pend, unacked] using hf
+  · by_cases h1 : m.qos = 1
+    · simp [publish, h1] at hp
+      subst hp; simpa [pkt, inv.pend, unacked] using hf
+    · simp [publish, h0, h1] at hp
+
+/-- **A tick re-sends only unacknowledged messages, each with its original id and content** — at most one packet,
+exactly one when something is unacknowledged and the client is online, none when nothing is. Windowed
+hypothesis only. ("…and is not retransmitted afterwards": an acknowledged message is in no `unacked` list.) -/
+theorem tick_resends_only_unacked (tr : List Ev) (h : PendingBelow tr) (online : Bool) :
+    (∀ p ∈ (doResend online (SessionQueue.run Sess.init tr)).2, ∃ e ∈ unacked tr, p = pkt e.1 e.2) ∧
+    (unacked tr ≠ [] → online = true →
+      ∃ e ∈ unacked tr, (doResend online (SessionQueue.run Sess.init tr)).2 = [pkt e.1 e.2]) ∧
+    (unacked tr = [] → (doResend online (SessionQueue.run Sess.init tr)).2 = []) :=
+  (doResend_qi (qi_run tr qi_init h) online).2
 
 /-- **Resend the oldest unacknowledged message, nothing else.** After any trace of publishes (any QoS,
 online or offline, queue full or not), PUBACKs (any ids, also bogus ones) and ticks, a resend tick writes
 exactly the oldest QoS1 message not yet acknowledged — same id, topic, payload — if the client is online,
 and nothing if there is none. -/
-theorem resend_oldest_unacked (tr : List Ev) (h : NoWrap tr) (online : Bool) :
-    (doResend online (SessionQueue.run Sess.init tr)).2 = specTick online (unacked tr).2 :=
-  (doResend_spec (qinv_run tr qinv_init h) online).1
+theorem resend_oldest_unacked (tr : List Ev) (h : PendingBelow tr) (hs : NoStaleIdReuse tr) (online : Bool) :
+    (doResend online (SessionQueue.run Sess.init tr)).2 = specTick online (unacked tr) :=
+  (doResend_spec (qo_run tr qo_init h hs) online).1
 
-theorem mem_unackedFrom_puback (rest : List Ev) : ∀ (st : Nat × List (Id × Msg)) (i : Id),
-    i < st.1 → i ∉ st.2.map Prod.fst → consumed st.1 rest ≤ idMod →
-    i ∉ (unackedFrom st rest).2.map Prod.fst := by
-  induction rest with
-  | nil => intro st i _ h _; simpa [unackedFrom] using h
-  | cons e r ih =>
-    intro st i hlt hni hc
-    simp only [unackedFrom]
-    cases e with
-    | publish online full m =>
-      cases online with
-      | false =>
-        have e : unackedStep st (.publish false full m) = st := rfl
-        rw [e]
-        exact ih st i hlt hni (by simpa [consumed] using hc)
-      | true =>
-        have hc' : consumed (st.1 + 1) r ≤ idMod := by simpa [consumed] using hc
-        have hlim : st.1 < idMod := by have := consumed_mono r (st.1 + 1); omega
-        apply ih _ i
-        · simp only [unackedStep, if_true]; exact Nat.lt_succ_of_lt hlt
-        · simp only [unackedStep, if_true]
-          split
-          · rw [List.map_append, List.mem_append, not_or]
-            refine ⟨hni, ?_⟩
-            simp only [List.map_cons, List.map_nil, List.mem_singleton, Nat.mod_eq_of_lt hlim]
-            exact Nat.ne_of_lt hlt
-          · exact hni
-        · simpa [unackedStep] using hc'
-    | puback j =>
-      apply ih _ i (by simpa [unackedStep] using hlt) _ (by simpa [unackedStep, consumed] using hc)
-      simp only [unackedStep]
-      intro hm
-      obtain ⟨e, he, e2⟩ := List.mem_map.mp hm
-      exact hni (List.mem_map.mpr ⟨e, (List.mem_filter.mp he).1, e2⟩)
-    | tick o =>
-      have e : unackedStep st (.tick o) = st := rfl
-      rw [e]
-      exact ih st i hlt hni (by simpa [consumed] using hc)
-
-theorem unackedFrom_append (a b : List Ev) : ∀ st, unackedFrom st (a ++ b) = unackedFrom (unackedFrom st a) b := by
-  induction a with
-  | nil => intro st; rfl
-  | cons e r ih => intro st; simp only [List.cons_append, unackedFrom, ih]
-
-theorem consumed_append (a b : List Ev) : ∀ n, consumed n (a ++ b) = consumed (consumed n a) b := by
-  induction a with
-  | nil => intro n; rfl
-  | cons e r ih =>
-    intro n
-    cases e with
-    | publish online full m => cases online <;> simp [consumed, ih]
-    | puback i => simp [consumed, ih]
-    | tick o => simp [consumed, ih]
-
-theorem unackedFrom_fst (tr : List Ev) : ∀ st, (unackedFrom st tr).1 = consumed st.1 tr := by
-  induction tr with
-  | nil => intro st; rfl
-  | cons e r ih =>
-    intro st
-    cases e with
-    | publish online full m => cases online <;> simp [unackedFrom, unackedStep, consumed, ih]
-    | puback i => simp [unackedFrom, unackedStep, consumed, ih]
-    | tick o => simp [unackedFrom, unackedStep, consumed, ih]
-
-/-- **No resend after the acknowledgement.** Once the client has acknowledged packet id `i` (an id that
-had been issued), no later tick — whatever happens in between — writes a packet with id `i` again. -/
-theorem no_resend_after_ack (tr rest : List Ev) (i : Id) (hi : i < (unacked tr).1)
-    (h : NoWrap (tr ++ .puback i :: rest)) (online : Bool) :
+/-- **No resend after the acknowledgement.** Once the client has acknowledged packet id `i`, then — as long as
+no new message is published (which could legitimately be given the freed id) — no tick, whatever PUBACKs and
+ticks happen in between, writes a packet with id `i` again. -/
+theorem no_resend_after_ack (tr rest : List Ev) (i : Id) (h : PendingBelow tr) (hr : NoPublish rest)
+    (online : Bool) :
     ∀ p ∈ (doResend online (SessionQueue.run Sess.init (tr ++ .puback i :: rest))).2, p.id ≠ i := by
-  rw [resend_oldest_unacked _ h]
-  have hnot : i ∉ (unacked (tr ++ .puback i :: rest)).2.map Prod.fst := by
-    unfold unacked
-    rw [unackedFrom_append]
-    simp only [unackedFrom]
-    apply mem_unackedFrom_puback rest _ i
-    · show i < (unackedFrom (0, []) tr).1
-      exact hi
-    · simp only [unackedStep]
-      intro hm
-      obtain ⟨e, he, e2⟩ := List.mem_map.mp hm
-      have := (List.mem_filter.mp he).2
-      simp only [ne_eq, decide_not, Bool.not_eq_eq_eq_not, Bool.not_true, decide_eq_false_iff_not] at this
-      exact this e2
-    · unfold NoWrap at h
-      rw [consumed_append] at h
-      simp only [unackedStep]
-      rw [unackedFrom_fst]
-      simpa [consumed] using h
+  have hnp : NoPublish (Ev.puback i :: rest) := by
+    intro e he o f m
+    rcases List.mem_cons.mp he with e1 | e1
+    · subst e1; intro x; cases x
+    · exact hr e e1 o f m
+  have h' : PendingBelow (tr ++ .puback i :: rest) := by
+    unfold PendingBelow
+    rw [pendBound_append]
+    exact ⟨h, pendBound_noPublish _ hnp _⟩
   intro p hp
-  cases hu : (unacked (tr ++ .puback i :: rest)).2 with
-  | nil => rw [hu] at hp; simp [specTick] at hp
-  | cons e r =>
-    rw [hu] at hp hnot
-    simp only [specTick] at hp
-    split at hp
-    · simp only [List.mem_singleton] at hp
-      subst hp
-      intro e2
-      apply hnot
-      simp only [List.map_cons, List.mem_cons]
-      left; simpa [pkt] using e2.symm
-    · simp at hp
+  obtain ⟨e, he, rfl⟩ := (tick_resends_only_unacked _ h' online).1 p hp
+  unfold unacked at he
+  rw [uRun_append] at he
+  simp only [uRun, SessionQueue.step] at he
+  have := uRun_noPublish_sub rest hr _ _ e he
+  simp only [obsStep] at this
+  have hne := (List.mem_filter.mp this).2
+  simpa [pkt] using hne
 
 /-- **Retransmitted until acknowledged — head-of-line reading (partial).** While message `(i, m)` is the
-oldest unacknowledged one (all earlier QoS1 messages to this client are acknowledged), *every* tick with
-the client online re-sends it; by `resend_oldest_unacked` nothing younger is re-sent before that.
-NOT proved (and false for this code): "every unacknowledged message is re-sent at every tick" — `doResend`
-sends one message per 200 ms tick, so a younger message waits for the acknowledgement of the older ones. -/
-theorem every_pending_resent_until_acked_partial (tr : List Ev) (h : NoWrap tr) (i : Id) (m : Msg)
-    (u : List (Id × Msg)) (hu : (unacked tr).2 = (i, m) :: u) :
+oldest unacknowledged one, *every* tick with the client online re-sends it. NOT true for this code: "every
+unacknowledged message is re-sent at every tick" (`starved_behind_unacked_head`, open known finding). -/
+theorem every_pending_resent_until_acked_partial (tr : List Ev) (h : PendingBelow tr) (hs : NoStaleIdReuse tr)
+    (i : Id) (m : Msg) (u : List (Id × Msg)) (hu : unacked tr = (i, m) :: u) :
     (doResend true (SessionQueue.run Sess.init tr)).2 = [pkt i m] := by
-  rw [resend_oldest_unacked tr h, hu]; rfl
+  rw [resend_oldest_unacked tr h hs, hu]; rfl
 
 /-- a tick does not change which messages are unacknowledged: the head stays the head until its PUBACK -/
 theorem tick_keeps_unacked (tr : List Ev) (online : Bool) :
-    (unacked (tr ++ [.tick online])).2 = (unacked tr).2 := by
-  unfold unacked; rw [unackedFrom_append]; rfl
-
-/-- **Packet ids of pending messages are pairwise distinct** (fewer than 65 536 ids consumed), and the
-session's `pending` map is exactly the list of unacknowledged QoS1 messages. -/
-theorem packet_ids_distinct_while_pending (tr : List Ev) (h : NoWrap tr) :
-    ((unacked tr).2.map Prod.fst).Nodup ∧ (SessionQueue.run Sess.init tr).pending = (unacked tr).2 :=
-  let inv := qinv_run tr qinv_init h
-  ⟨inv.nd, inv.pend⟩
+    unacked (tr ++ [.tick online]) = unacked tr := by
+  unfold unacked; rw [uRun_append]; rfl
 
 /-! ### client → broker QoS1 PUBLISH -/
 
@@ -269,11 +227,12 @@ private def m0 : Msg := ⟨"t", "z", 0⟩
 private def tr1 : List Ev :=
   [.publish true false m1, .publish true true m0, .publish true false m2, .tick true, .puback 0, .tick true]
 
-example : NoWrap tr1 := by unfold NoWrap; decide
+example : PendingBelow tr1 ∧ NoStaleIdReuse tr1 := by
+  unfold PendingBelow NoStaleIdReuse; decide
 /-- m1 gets id 0, the dropped QoS0 copy still consumes id 1, m2 gets id 2; first tick re-sends m1, after
 its PUBACK the second tick re-sends m2 -/
 example : outputs Sess.init tr1 = [pkt 0 m1, pkt 2 m2, pkt 0 m1, pkt 2 m2] := by decide
-example : (unacked tr1).2 = [(2, m2)] := by decide
+example : unacked tr1 = [(2, m2)] := by decide
 
 /-- **Defect (i), unrepaired `sendMsgToClient`**: with the subscriber map `{c1:0, c2:1}` and a QoS1 message,
 visiting `c1` first ends the loop and the eligible `c2` gets nothing; the other order serves it. The
@@ -291,72 +250,84 @@ example : collapseLast [("c", 1), ("c", 0)] = [("c", 0)] ∧ collapseLast [("c",
 
 /-! ### Extension mqtt: packet ids, wrap-around, retransmission of every pending message
 
-Behaviour that DESIGN §10.3 recorded only as observations, now theorems about the model (which the
-in-process correspondence run ties to `session.go`), with NO `NoWrap` hypothesis where it says so. -/
+Round 2: the model mirrors the REPAIRED `getPacketFromMsg` (fix `C15-packet-id-skip-pending`); the behaviour of
+the unrepaired code (`publishOld`, `runOld`) is kept as witnesses (`unrepaired_…`). -/
 
 /-- **First packet id is 0.** The first PUBLISH a fresh session sends carries packet id 0 (MQTT 3.1.1 §2.3.1
-asks for a non-zero id when QoS > 0; the C15 statement does not, so this stays an observation — but a proved
-one). -/
+asks for a non-zero id when QoS > 0; the C15 statement does not — an observation, but a proved one). -/
 theorem first_qos1_id_zero (m : Msg) (full : Bool) (h : m.qos = 1) :
     (publish true full m Sess.init).2 = [pkt 0 m] := by
-  simp [publish, h, Sess.init]
+  have : freeId ([] : List (Id × Msg)) 0 = 0 := freeId_of_free _ _ rfl
+  simp [publish, h, Sess.init, this]
 
-/-- **Packet-id allocation law, every trace (no `NoWrap`)**: the counter equals the number of online
-publishes of *any* QoS (QoS0 copies, dropped or not, and QoS2 consume ids too) modulo 65 536, and the next
-QoS1 PUBLISH carries exactly that id. -/
-theorem packet_id_is_publish_count_mod (tr : List Ev) (m : Msg) (full : Bool) (h : m.qos = 1) :
-    (SessionQueue.run Sess.init tr).nextID = consumed 0 tr % idMod ∧
-    (publish true full m (SessionQueue.run Sess.init tr)).2 = [pkt (consumed 0 tr % idMod) m] := by
-  have e := nextID_run tr Sess.init 0 rfl
-  exact ⟨e, by rw [publish_qos1_out _ _ _ h, e]⟩
+/-- **Packet-id allocation of the repaired code**: the counter value itself when no pending message has it,
+otherwise the next free one; never the id of a pending message while fewer than 65 536 are pending. -/
+theorem packet_id_allocation (p : List (Id × Msg)) (next : Id) :
+    (alGet next p = none → freeId p next = next) ∧
+    (next < idMod → p.length < idMod → freeId p next ∉ p.map Prod.fst) :=
+  ⟨freeId_of_free p next, freeId_fresh p next⟩
 
-/-- **Wrap-around onto a still-pending id (one step, every state).** When the uint16 counter has come round
-to an id whose message is still unacknowledged, the next online QoS1 publish replaces that message in
-`pending` (same key set — no second entry) and queues the id again: the older message can never be re-sent. -/
-theorem wrap_overwrites_pending (s : Sess) (m m' : Msg) (full : Bool)
+/-- **The wrap history on the repaired code keeps both messages**: QoS1 `m`, 65 535 further online publishes of
+other QoS, QoS1 `m'` ⇒ `m'` skips the still-pending id 0 and gets id 1; a tick re-sends `m` (the oldest), after
+its PUBACK `m'`. (Corpus case 900008 is this history on the real code and must pass.) -/
+theorem repaired_wrap_keeps_both (f f' : Bool) (m m' : Msg) (l : List (Bool × Msg)) (h1 : m.qos = 1)
+    (h1' : m'.qos = 1) (hl : ∀ p ∈ l, p.2.qos ≠ 1) (hlen : l.length = 65535) :
+    (SessionQueue.run Sess.init (wrapTrace f f' m m' l)).pending = [(0, m), (1, m')] ∧
+    (doResend true (SessionQueue.run Sess.init (wrapTrace f f' m m' l))).2 = [pkt 0 m] ∧
+    (doResend true (puback 0 (SessionQueue.run Sess.init (wrapTrace f f' m m' l)))).2 = [pkt 1 m'] := by
+  rw [repaired_wrap_state f f' m m' l h1 h1' hl hlen]
+  refine ⟨rfl, ?_, ?_⟩
+  · simp [doResend, firstPending, alGet, pkt]
+  · simp [doResend, puback, alErase, firstPending, alGet, pkt]
+
+/-- **Unrepaired code: allocation law** — the counter equals the number of online publishes of *any* QoS modulo
+65 536 and the next QoS1 PUBLISH carries exactly that id, pending or not. -/
+theorem unrepaired_packet_id_is_publish_count_mod (tr : List Ev) (m : Msg) (full : Bool) (h : m.qos = 1) :
+    (runOld Sess.init tr).nextID = consumed 0 tr % idMod ∧
+    (publishOld true full m (runOld Sess.init tr)).2 = [pkt (consumed 0 tr % idMod) m] := by
+  have e := nextID_runOld tr Sess.init 0 rfl
+  exact ⟨e, by rw [publishOld_qos1_out _ _ _ h, e]⟩
+
+/-- **Unrepaired code: wrap-around onto a still-pending id (one step, every state)**: the pending message is
+replaced (same key set), the id queued again. -/
+theorem unrepaired_wrap_overwrites_pending (s : Sess) (m m' : Msg) (full : Bool)
     (hp : alGet s.nextID s.pending = some m) (h1 : m'.qos = 1) :
-    alGet s.nextID (publish true full m' s).1.pending = some m' ∧
-    (publish true full m' s).1.pending.map Prod.fst = s.pending.map Prod.fst ∧
-    (publish true full m' s).1.queue = s.queue ++ [s.nextID] :=
+    alGet s.nextID (publishOld true full m' s).1.pending = some m' ∧
+    (publishOld true full m' s).1.pending.map Prod.fst = s.pending.map Prod.fst ∧
+    (publishOld true full m' s).1.queue = s.queue ++ [s.nextID] :=
   wrap_overwrites_pending_step s m m' full hp h1
 
-/-- **The wrap is reachable and loses a message (violation of "retransmitted until acknowledged").**
-History from a fresh session: QoS1 message `m` (never acknowledged), 65 535 further online publishes of other
-QoS to the same client (`l`, dropped or not), QoS1 message `m'`. Then (1) `pending = [(0, m')]`; (2) whatever
-PUBACKs and however many ticks follow, every packet written is `m'` — `m` is never retransmitted although it
-was never acknowledged; (3) the specification's bookkeeping still lists `m` as the oldest unacknowledged
-message, so `resend_oldest_unacked` is false for this trace (which is why it carries `NoWrap`); (4) the trace
-consumes 65 537 ids, just outside `NoWrap`. Known finding `C15-id-wrap-overwrites-pending`. -/
-theorem wrap_loses_unacked_message (f f' : Bool) (m m' : Msg) (l : List (Bool × Msg)) (h1 : m.qos = 1)
+/-- **Unrepaired code: the wrap is reachable and loses a message** (the defect repaired by
+`fixes/C15-packet-id-skip-pending.patch`; former known finding `C15-id-wrap-overwrites-pending`). From a fresh
+session: QoS1 `m` (never acknowledged), 65 535 further online publishes, QoS1 `m'` ⇒ `pending = [(0, m')]`;
+whatever PUBACKs and ticks follow, every packet written is `m'`; the observation-based bookkeeping still lists
+`m` as the oldest unacknowledged message. Compare `repaired_wrap_keeps_both`. -/
+theorem unrepaired_wrap_loses_unacked_message (f f' : Bool) (m m' : Msg) (l : List (Bool × Msg)) (h1 : m.qos = 1)
     (h1' : m'.qos = 1) (hl : ∀ p ∈ l, p.2.qos ≠ 1) (hlen : l.length = 65535) :
-    (SessionQueue.run Sess.init (wrapTrace f f' m m' l)).pending = [(0, m')] ∧
+    (runOld Sess.init (wrapTrace f f' m m' l)).pending = [(0, m')] ∧
     (∀ rest, NoPublish rest →
-      ∀ p ∈ outputs (SessionQueue.run Sess.init (wrapTrace f f' m m' l)) rest, p = pkt 0 m') ∧
-    (doResend true (SessionQueue.run Sess.init (wrapTrace f f' m m' l))).2 = [pkt 0 m'] ∧
-    specTick true (unacked (wrapTrace f f' m m' l)).2 = [pkt 0 m] ∧
-    ¬ NoWrap (wrapTrace f f' m m' l) := by
+      ∀ p ∈ outputsOld (runOld Sess.init (wrapTrace f f' m m' l)) rest, p = pkt 0 m') ∧
+    (doResend true (runOld Sess.init (wrapTrace f f' m m' l))).2 = [pkt 0 m'] ∧
+    specTick true (unackedObs [] (traceOld Sess.init (wrapTrace f f' m m' l))) = [pkt 0 m] := by
   obtain ⟨hp, hq, hn⟩ := wrap_state f f' m m' l h1 h1' hl hlen
-  refine ⟨hp, fun rest hr => wrap_never_resends_old f f' m m' l h1 h1' hl hlen rest hr, ?_, ?_, ?_⟩
+  refine ⟨hp, fun rest hr => wrap_never_resends_old f f' m m' l h1 h1' hl hlen rest hr, ?_, ?_⟩
   · unfold doResend
     rw [hp, hq]
     simp [firstPending, alGet, pkt]
   · rw [wrap_unacked f f' m m' l h1 h1' hl hlen]; rfl
-  · unfold NoWrap
-    have : consumed 0 (wrapTrace f f' m m' l) = 65537 := by
-      have := unackedFrom_fst (wrapTrace f f' m m' l) (0, [])
-      have e2 : (unackedFrom (0, []) (wrapTrace f f' m m' l)).1 = 65537 := by
-        simp only [wrapTrace, unackedFrom, unackedStep, if_true]
-        rw [unackedFrom_append, unackedFrom_noise l hl]
-        simp [unackedFrom, unackedStep, hlen]
-      rw [← this]; exact e2
-    rw [this]; decide
 
-/-- **Who is re-sent at a tick: exactly the oldest unacknowledged message.** For an unacknowledged `(i, m)`,
-the tick writes it iff it is the head of the unacknowledged list. -/
-theorem resent_iff_oldest (tr : List Ev) (h : NoWrap tr) (i : Id) (m : Msg) :
-    pkt i m ∈ (doResend true (SessionQueue.run Sess.init tr)).2 ↔ (unacked tr).2.head? = some (i, m) := by
-  rw [resend_oldest_unacked tr h]
-  cases hu : (unacked tr).2 with
+/-- **The judge's executable spec is the spec of these theorems**: `unacked tr` is the judge's fold `unackedObs`
+over the observation trace (here the model's own), and on the model's own behaviour a tick's output is accepted
+by `specTick` (`resend_oldest_unacked`) — `Driver/C15.lean` applies the same two functions to what the
+implementation wrote. -/
+theorem judge_spec_is_unacked (tr : List Ev) :
+    unacked tr = unackedObs [] (trace Sess.init tr) := uRun_eq_unackedObs tr Sess.init []
+
+/-- **Who is re-sent at a tick: exactly the oldest unacknowledged message.** -/
+theorem resent_iff_oldest (tr : List Ev) (h : PendingBelow tr) (hs : NoStaleIdReuse tr) (i : Id) (m : Msg) :
+    pkt i m ∈ (doResend true (SessionQueue.run Sess.init tr)).2 ↔ (unacked tr).head? = some (i, m) := by
+  rw [resend_oldest_unacked tr h hs]
+  cases hu : unacked tr with
   | nil => simp [specTick]
   | cons e r =>
     obtain ⟨j, mm⟩ := e
@@ -370,92 +341,123 @@ theorem resent_iff_oldest (tr : List Ev) (h : NoWrap tr) (i : Id) (m : Msg) :
       exact ⟨rfl, rfl⟩
     · rintro ⟨rfl, rfl⟩; rfl
 
-/-- acknowledging a prefix of the unacknowledged list makes the next message the head -/
-theorem unackedFrom_ack_prefix (pre : List (Id × Msg)) : ∀ (n : Nat) (rest : List (Id × Msg)),
-    ((pre ++ rest).map Prod.fst).Nodup →
-    unackedFrom (n, pre ++ rest) (pre.map (fun e => Ev.puback e.1)) = (n, rest) := by
-  induction pre with
-  | nil => intro n rest _; rfl
-  | cons e r ih =>
-    intro n rest nd
-    simp only [List.map_cons, unackedFrom, unackedStep, List.cons_append]
-    rw [filter_head_nodup e (r ++ rest) (by simpa using nd)]
-    apply ih
-    simp only [List.cons_append, List.map_cons, List.nodup_cons] at nd
-    exact nd.2
-
 /-- **Retransmission of EVERY pending message (strongest true form).** Let `(i, m)` be any unacknowledged
-message with older unacknowledged messages `pre` in front of it. Once the client has acknowledged those
-(in any way that covers `pre`; here: one PUBACK each), *every* tick re-sends `(i, m)` until its own PUBACK
-(`tick_keeps_unacked`, `no_resend_after_ack`). So each pending message is retransmitted at every tick from the
-moment all older ones are acknowledged — not before (`resent_iff_oldest`, `starved_behind_unacked_head`). -/
-theorem resent_once_older_acked (tr : List Ev) (h : NoWrap tr) (pre post : List (Id × Msg)) (i : Id) (m : Msg)
-    (hu : (unacked tr).2 = pre ++ (i, m) :: post) :
+message with older unacknowledged messages `pre` in front of it. Once the client has acknowledged those, *every*
+tick re-sends `(i, m)` until its own PUBACK. -/
+theorem resent_once_older_acked (tr : List Ev) (h : PendingBelow tr) (hs : NoStaleIdReuse tr)
+    (pre post : List (Id × Msg)) (i : Id) (m : Msg) (hu : unacked tr = pre ++ (i, m) :: post) :
     (doResend true (SessionQueue.run Sess.init (tr ++ pre.map (fun e => Ev.puback e.1)))).2 = [pkt i m] := by
-  have hc : ∀ (l : List (Id × Msg)) (n : Nat), consumed n (l.map (fun e => Ev.puback e.1)) = n := by
-    intro l; induction l with
-    | nil => intro n; rfl
-    | cons e r ih => intro n; simpa [consumed] using ih n
-  have h' : NoWrap (tr ++ pre.map (fun e => Ev.puback e.1)) := by
-    unfold NoWrap at h ⊢; rw [consumed_append, hc]; exact h
+  have hnp := noPublish_pubacks pre
+  have h' : PendingBelow (tr ++ pre.map (fun e => Ev.puback e.1)) := by
+    unfold PendingBelow; rw [pendBound_append]; exact ⟨h, pendBound_noPublish _ hnp _⟩
+  have hs' : NoStaleIdReuse (tr ++ pre.map (fun e => Ev.puback e.1)) := by
+    unfold NoStaleIdReuse; rw [noStale_append]; exact ⟨hs, noStale_noPublish _ hnp _⟩
   have nd := (packet_ids_distinct_while_pending tr h).1
-  rw [resend_oldest_unacked _ h']
-  have : (unacked (tr ++ pre.map (fun e => Ev.puback e.1))).2 = (i, m) :: post := by
+  rw [resend_oldest_unacked _ h' hs']
+  have : unacked (tr ++ pre.map (fun e => Ev.puback e.1)) = (i, m) :: post := by
     unfold unacked
-    rw [unackedFrom_append]
-    have e : unackedFrom (0, []) tr = ((unacked tr).1, pre ++ (i, m) :: post) := by
-      rw [← hu]; rfl
-    rw [e, unackedFrom_ack_prefix pre _ _ (by rw [← hu]; exact nd)]
+    rw [uRun_append]
+    have e : uRun Sess.init [] tr = pre ++ (i, m) :: post := hu
+    rw [e, uRun_ack_prefix pre _ _ (by rw [← hu]; exact nd)]
   rw [this]; rfl
 
-/-- **At-least-once for every pending message against a client that acknowledges what it is sent.** After any
-`NoWrap` trace, the continuation tick, PUBACK(id₁), tick, PUBACK(id₂), … (one round per unacknowledged message,
-oldest first) writes exactly the unacknowledged messages, each once, in order, with their original ids, and
-leaves nothing pending. -/
-theorem drain_all_pending (tr : List Ev) (h : NoWrap tr) :
-    outputs (SessionQueue.run Sess.init tr) (ackAll (unacked tr).2) =
-      (unacked tr).2.map (fun e => pkt e.1 e.2) ∧
-    (SessionQueue.run (SessionQueue.run Sess.init tr) (ackAll (unacked tr).2)).pending = [] := by
-  have inv := qinv_run tr qinv_init h
-  have d := drain_all (unacked tr).2 inv
+/-- **At-least-once for every pending message against a client that acknowledges what it is sent.** The
+continuation tick, PUBACK(id₁), tick, PUBACK(id₂), … writes exactly the unacknowledged messages, each once, in
+order, with their original ids, and leaves nothing pending. -/
+theorem drain_all_pending (tr : List Ev) (h : PendingBelow tr) (hs : NoStaleIdReuse tr) :
+    outputs (SessionQueue.run Sess.init tr) (ackAll (unacked tr)) =
+      (unacked tr).map (fun e => pkt e.1 e.2) ∧
+    (SessionQueue.run (SessionQueue.run Sess.init tr) (ackAll (unacked tr))).pending = [] := by
+  have inv : QO (SessionQueue.run Sess.init tr) (unacked tr) := qo_run tr qo_init h hs
+  have d := drain_all (unacked tr) inv
   exact ⟨d.1, d.2.pend⟩
 
 /-- **Head-of-line starvation (all tick counts).** While the oldest unacknowledged message stays
 unacknowledged, `k` ticks write `k` copies of it and nothing else: a younger unacknowledged message is *never*
-retransmitted, for any `k`. Read literally ("a QoS1 message is retransmitted until that client acknowledges
-it", clients that omit PUBACK are in the quantifier) this violates the statement for the younger message.
-Known finding `C15-resend-head-of-line-starvation`. -/
-theorem starved_behind_unacked_head (tr : List Ev) (h : NoWrap tr) (e : Id × Msg) (u : List (Id × Msg))
-    (hu : (unacked tr).2 = e :: u) (k : Nat) :
+retransmitted. Open known finding `C15-resend-head-of-line-starvation`. -/
+theorem starved_behind_unacked_head (tr : List Ev) (h : PendingBelow tr) (hs : NoStaleIdReuse tr)
+    (e : Id × Msg) (u : List (Id × Msg)) (hu : unacked tr = e :: u) (k : Nat) :
     outputs (SessionQueue.run Sess.init tr) (List.replicate k (Ev.tick true)) =
       List.replicate k (pkt e.1 e.2) := by
-  have inv : QInv (SessionQueue.run Sess.init tr) (unacked tr).1 (unacked tr).2 := qinv_run tr qinv_init h
+  have inv : QO (SessionQueue.run Sess.init tr) (unacked tr) := qo_run tr qo_init h hs
   rw [hu] at inv
   exact (ticks_only_resend_head inv k).1
+
+/-- the old trace-wide bound implies nothing here any more: the hypotheses are windowed. A long-lived session:
+70 000 acknowledged messages, then one more — every theorem above still applies (no `NoWrap`). -/
+example : ∀ (tr : List Ev), PendingBelow tr → ((unacked tr).map Prod.fst).Nodup :=
+  fun tr h => (packet_ids_distinct_while_pending tr h).1
 
 private def wm : Msg := ⟨"t", "old", 1⟩
 private def wm' : Msg := ⟨"t", "new", 1⟩
 private def wl : List (Bool × Msg) := List.replicate 65535 (true, ⟨"t", "z", 0⟩)
+private def wl_ok : (∀ p ∈ wl, p.2.qos ≠ 1) ∧ wl.length = 65535 :=
+  ⟨by intro p hp; unfold wl at hp; rw [List.eq_of_mem_replicate hp]; decide, by unfold wl; exact List.length_replicate⟩
 
-/-- non-vacuity of the wrap theorem: a concrete 65 537-publish history (not evaluated step by step) -/
-example : (SessionQueue.run Sess.init (wrapTrace false false wm wm' wl)).pending = [(0, wm')] :=
-  (wrap_loses_unacked_message false false wm wm' wl rfl rfl
-    (by intro p hp; unfold wl at hp; rw [List.eq_of_mem_replicate hp]; decide)
-    (by unfold wl; exact List.length_replicate)).1
+/-- non-vacuity: the concrete 65 537-publish history (not evaluated step by step), repaired vs. unrepaired -/
+example : (SessionQueue.run Sess.init (wrapTrace false false wm wm' wl)).pending = [(0, wm), (1, wm')] :=
+  (repaired_wrap_keeps_both false false wm wm' wl rfl rfl wl_ok.1 wl_ok.2).1
+example : (runOld Sess.init (wrapTrace false false wm wm' wl)).pending = [(0, wm')] :=
+  (unrepaired_wrap_loses_unacked_message false false wm wm' wl rfl rfl wl_ok.1 wl_ok.2).1
 example : pkt 0 wm ≠ pkt 0 wm' := by decide
-/-- non-vacuity of `wrap_overwrites_pending`: a state whose counter sits on a pending id -/
-example : alGet (⟨[(7, wm)], [7], 7⟩ : Sess).nextID (⟨[(7, wm)], [7], 7⟩ : Sess).pending = some wm := by decide
+/-- a state whose counter sits on a pending id: the repaired allocation skips it -/
+example : (publish true false wm' (⟨[(7, wm)], [7], 7⟩ : Sess)).2 = [pkt 8 wm'] := by
+  have : freeId [(7, wm)] 7 = 8 := by
+    have := freeId_skip_one [(7, wm)] 7 wm (by decide) (by decide)
+    simpa [idMod] using this
+  simp [publish, this, wm']
 /-- two unacknowledged messages, no PUBACK: three ticks re-send only the first; `m2` is starved -/
 example : outputs Sess.init [.publish true false m1, .publish true false m2, .tick true, .tick true, .tick true]
     = [pkt 0 m1, pkt 1 m2, pkt 0 m1, pkt 0 m1, pkt 0 m1] := by decide
-example : NoWrap [.publish true false m1, .publish true false m2] ∧
-    (unacked [.publish true false m1, .publish true false m2]).2 = [(0, m1), (1, m2)] := by
-  constructor
-  · unfold NoWrap; decide
-  · decide
+example : PendingBelow [.publish true false m1, .publish true false m2] ∧
+    NoStaleIdReuse [.publish true false m1, .publish true false m2] ∧
+    unacked [.publish true false m1, .publish true false m2] = [(0, m1), (1, m2)] := by
+  unfold PendingBelow NoStaleIdReuse; decide
 /-- …and a client that acknowledges what it is sent gets both, each exactly once -/
 example : outputs (SessionQueue.run Sess.init [.publish true false m1, .publish true false m2])
     (ackAll [(0, m1), (1, m2)]) = [pkt 0 m1, pkt 1 m2] := by decide
+
+/-! ### Extension mqtt round 2 (audit P2 item 17): one fan-out end to end -/
+
+/-- what client `c` gets from one fan-out of message `m`: `sendMsgToClient` visits the subscriber map in `order`
+and calls `session.publish` on the selected clients' sessions (`full c`: that client's queue is full at the
+non-blocking QoS0 send) -/
+def deliver (sess : Client → Sess) (conn : Client → Bool) (full : Client → Bool) (order : List (Client × QoS))
+    (m : Msg) (c : Client) : Sess × List Packet :=
+  if c ∈ send conn m.qos order then publish (conn c) (full c) m (sess c) else (sess c, [])
+
+/-- **End to end: fan-out composed with the session queue.** After any subscription history, for any visiting
+order of the subscriber map: a connected client holding a matching live subscription with QoS ≥ the message's
+gets the message WRITTEN to it — always for QoS1 (and it is pending under the id it was written with), for QoS0
+unless its queue is full — carrying the message's topic, payload and QoS; a client that is not eligible gets
+nothing and its session is untouched. -/
+theorem deliver_end_to_end (ops : List Op) (lv : List Level) (conn : Client → Bool) (order : List (Client × QoS))
+    (hperm : List.Perm order (collapseMax (find (run State.init ops).trie lv)))
+    (sess : Client → Sess) (full : Client → Bool) (m : Msg) (c : Client) :
+    let elig := conn c = true ∧ ∃ f sq, (f, c, sq) ∈ specRun [] ops ∧ «matches» f lv = true ∧ m.qos ≤ sq
+    (elig → m.qos = 1 →
+      (deliver sess conn full order m c).2 = [pkt (freeId (sess c).pending (sess c).nextID) m] ∧
+      alGet (freeId (sess c).pending (sess c).nextID) (deliver sess conn full order m c).1.pending = some m) ∧
+    (elig → m.qos = 0 → full c = false →
+      (deliver sess conn full order m c).2 = [pkt (freeId (sess c).pending (sess c).nextID) m]) ∧
+    (¬ elig → deliver sess conn full order m c = (sess c, [])) := by
+  intro elig
+  have hiff := send_all_eligible_any_order ops lv m.qos conn order hperm c
+  refine ⟨?_, ?_, ?_⟩
+  · intro he h1
+    have hmem := hiff.mpr he
+    simp only [deliver, hmem, if_true, he.1]
+    exact qos1_always_written (sess c) m (full c) h1
+  · intro he h0 hf
+    have hmem := hiff.mpr he
+    simp only [deliver, hmem, if_true, he.1]
+    exact (qos0_drop_only_when_full (sess c) m (full c) h0).2 hf
+  · intro hne
+    have : c ∉ send conn m.qos order := fun hm => hne (hiff.mp hm)
+    simp [deliver, this]
+
+example : (deliver (fun _ => Sess.init) (fun _ => true) (fun _ => false) [("c1", 0), ("c2", 1)] m1 "c2").2 = [pkt 0 m1] ∧
+    (deliver (fun _ => Sess.init) (fun _ => true) (fun _ => false) [("c1", 0), ("c2", 1)] m1 "c1").2 = [] := by decide
 
 /-! ### Extension mqtt: regenerated tie by translation (irlib, `harness/factextract/facts_c15_ir.go`)
 
@@ -484,10 +486,11 @@ theorem addClients_regenerated_from_source (cls ans : List (Client × Nat)) (hit
 example : Gen.FactsC15IR.addClientsIR [("c", 0), ("d", 1)] [("c", 1)] = [("c", 1), ("d", 1)] ∧
     Gen.FactsC15IR.addClientsIR [("c", 1)] [("c", 0)] = [("c", 1)] := by decide
 
-/-- `Session.getPacketFromMsg` (id = `nextID`; `nextID++` on a uint16) -/
+/-- `Session.getPacketFromMsg` (repaired: ids still in `pending` are skipped by a loop of at most 65 536 steps;
+the packet carries the id found, the uint16 counter steps past it) -/
 theorem getPacket_regenerated_from_source (s : Sess) (m : Msg) :
     Gen.FactsC15IR.extractionFailed = false ∧
-    Gen.FactsC15IR.getPacketIR s m = (pkt s.nextID m, (s.nextID + 1) % idMod) :=
+    Gen.FactsC15IR.getPacketIR s m = (pkt (freeId s.pending s.nextID) m, (freeId s.pending s.nextID + 1) % idMod) :=
   ⟨by decide, SessionQueue.getPacket_regenerated_from_source s m⟩
 
 /-- `Session.publish` -/
@@ -495,6 +498,14 @@ theorem publish_regenerated_from_source (online full : Bool) (m : Msg) (s : Sess
     Gen.FactsC15IR.extractionFailed = false ∧
     Gen.FactsC15IR.publishIR online full m s = publish online full m s :=
   ⟨by decide, SessionQueue.publish_regenerated_from_source online full m s⟩
+
+/-- `processPublish` (client.go): PUBACK with the inbound packet's own id iff QoS 1 (the function `pipelineWrapper`
+calls after limiter and pipeline passed; `puback_same_id_iff_passed` is about the whole path `onPublish`) -/
+theorem processPublish_regenerated_from_source (qos i : Nat) :
+    Gen.FactsC15IR.extractionFailed = false ∧
+    Gen.FactsC15IR.processPublishIR qos i = (onPublish true .ok qos i).puback.toList ∧
+    Gen.FactsC15IR.processPublishIR qos i = (onPublish true .notConfigured qos i).puback.toList :=
+  ⟨by decide, SessionQueue.processPublish_regenerated_from_source qos i⟩
 
 /-- `Session.puback` -/
 theorem puback_regenerated_from_source (i : Nat) (s : Sess) :
